@@ -22,6 +22,7 @@ CONSTANTS
   MalformedRefused = TRUE
   ZeroAsAbsent <- MCNone
   MaxPending = 2
+  MalformedMoves = FALSE
   ClassEveryVersion = TRUE
   MaxSteps = 14
   SuccessionChecked = TRUE
